@@ -129,6 +129,7 @@ type DischargeOpts struct {
 	Race     bool
 	Workers  int
 	NoRetry  bool
+	Known    map[string]bool // obligations listed as known findings: expected not to discharge, so no long retry
 }
 
 // DischargeAll solves every obligation and cover in parallel.
@@ -172,8 +173,13 @@ func DischargeAll(obls []*Obligation, covers []*Cover, o DischargeOpts) (res []*
 				j.r.Status = "error"
 				return
 			}
-			st, solver, t, all, dis := discharge(j.r.File, o.TimeoutS, o.Race)
-			if (st == "timeout" || st == "unknown") && o.Race && j.r.Cover == nil && !o.NoRetry {
+			limit := o.TimeoutS
+			known := j.r.Cover == nil && j.r.Obl != nil && o.Known[j.r.Obl.Name]
+			if known && limit > 5 {
+				limit = 5
+			}
+			st, solver, t, all, dis := discharge(j.r.File, limit, o.Race)
+			if (st == "timeout" || st == "unknown") && o.Race && j.r.Cover == nil && !o.NoRetry && !known {
 				// one retry with a longer limit before reporting
 				st, solver, t, all, dis = discharge(j.r.File, 3*o.TimeoutS, true)
 			}
